@@ -310,18 +310,18 @@ Proof. apply max_op_fold_ge. Qed.
 Lemma isolate_actor_spec fuel appl hs a : forall i ai s,
   isolate_actor fuel appl hs a i = Ok (ai, s) ->
   exists j, i <= j /\ ai = level_actor a j /\ s = seq_for_actor appl ai + 1 /\
-    (max_op_for_actor appl ai = 0 \/ max_op_for_actor appl ai <= clock_at_get appl hs ai) /\
+    (seq_for_actor appl ai = 0 \/ seq_clock_at appl hs ai = seq_for_actor appl ai) /\
     (forall k, i <= k < j ->
-       max_op_for_actor appl (level_actor a k) <> 0 /\
-       clock_at_get appl hs (level_actor a k) < max_op_for_actor appl (level_actor a k)).
+       seq_for_actor appl (level_actor a k) <> 0 /\
+       seq_clock_at appl hs (level_actor a k) <> seq_for_actor appl (level_actor a k)).
 Proof.
   induction fuel as [|f IH]; intros i ai s H; cbn [isolate_actor] in H; [discriminate|].
-  destruct ((max_op_for_actor appl (level_actor a i) =? 0)
-            || (max_op_for_actor appl (level_actor a i) <=? clock_at_get appl hs (level_actor a i))) eqn:E.
+  destruct ((seq_for_actor appl (level_actor a i) =? 0)
+            || (seq_clock_at appl hs (level_actor a i) =? seq_for_actor appl (level_actor a i))) eqn:E.
   - inversion H; subst. exists i. split; [lia|]. split; [reflexivity|]. split; [reflexivity|].
-    split; [apply orb_true_iff in E; destruct E as [E|E]; [left; apply N.eqb_eq, E|right; apply N.leb_le, E]|].
+    split; [apply orb_true_iff in E; destruct E as [E|E]; [left|right]; apply N.eqb_eq, E|].
     intros k Hk. lia.
-  - apply orb_false_iff in E. destruct E as [E1 E2]. apply N.eqb_neq in E1. apply N.leb_gt in E2.
+  - apply orb_false_iff in E. destruct E as [E1 E2]. apply N.eqb_neq in E1. apply N.eqb_neq in E2.
     destruct (IH _ _ _ H) as [j [Hj [Ha [Hs [Hc Hk]]]]]. exists j. split; [lia|]. split; [exact Ha|].
     split; [exact Hs|]. split; [exact Hc|]. intros k Hk2.
     destruct (N.eq_dec k i) as [->|Hne]; [split; assumption|]. apply Hk. lia.
@@ -436,18 +436,19 @@ Proof.
 Qed.
 
 (* 4. isolated at [hs]: deps are exactly [hs] (sorted; hashes the document does not know are
-   dropped by [export]), the actor is the first concurrency level of the document's actor whose
-   latest op is covered by the clock at [hs] (or that has no change) *)
+   dropped by [export]), the actor is the first concurrency level of the document's actor that
+   has no change or whose latest change (seq = number of its applied changes) is among the
+   ancestors of [hs] *)
 Theorem commit_deps_isolated appl heads a hs m :
   commit_meta appl heads a (Some hs) = Ok m ->
   cm_deps m = sortN (filter (has_hash appl) hs) /\
   (incl hs (hashes appl) -> forall h, In h (cm_deps m) <-> In h hs) /\
   exists j, cm_actor m = level_actor a j /\
-    (max_op_for_actor appl (cm_actor m) = 0 \/
-     max_op_for_actor appl (cm_actor m) <= clock_at_get appl hs (cm_actor m)) /\
+    (seq_for_actor appl (cm_actor m) = 0 \/
+     seq_clock_at appl hs (cm_actor m) = seq_for_actor appl (cm_actor m)) /\
     forall k, k < j ->
-      max_op_for_actor appl (level_actor a k) <> 0 /\
-      clock_at_get appl hs (level_actor a k) < max_op_for_actor appl (level_actor a k).
+      seq_for_actor appl (level_actor a k) <> 0 /\
+      seq_clock_at appl hs (level_actor a k) <> seq_for_actor appl (level_actor a k).
 Proof.
   unfold commit_meta.
   destruct (isolate_actor _ appl hs a 0) as [[ai s]| |] eqn:E; cbn [bind]; try discriminate.
@@ -772,104 +773,237 @@ Proof.
     apply (seq_clock_covers appl have c Hb Hch Hc) in Hn. congruence.
 Qed.
 
-(* a non-isolated commit keeps the chain: the previous change of the actor is a dependency or an
-   ancestor of one (it is applied, and every applied change is an ancestor of some head) — not
-   proved here.  An ISOLATED commit can break it: [isolate_actor] accepts the document's actor
-   when its latest op id is covered, and an empty change has no op of its own (its max_op is
-   the max_op of the change before it).  The witness is three commits of one actor: a change
-   with one op (hash 1), an empty change (hash 2), a change isolated at [1] (hash 3): the third
-   has seq 3 and does not descend from the second, and get_changes([3]) as the code computes it
-   returns nothing although change 2 is not an ancestor of 3. *)
 Definition dummy_op : op := mkOp (1, [7]) root_id (KMap [97]) false (APut SNull) [].
-Definition witness_steps : list mstep :=
-  [ SCommit (mkReq [7] None [dummy_op] false 1);
-    SCommit (mkReq [7] None [] true 2);
-    SCommit (mkReq [7] (Some [1]) [dummy_op] false 3) ].
-
-Theorem get_changes_impl_refuted :
-  exists steps m c, run_fresh m_empty steps /\ m_run m_empty steps = Ok m /\
-    In c (applied (m_doc m)) /\ ~ In c (ancestors (applied (m_doc m)) [3]) /\
-    In c (get_changes (applied (m_doc m)) [3]) /\
-    ~ In c (get_changes_impl (applied (m_doc m)) [3]).
-Proof.
-  exists witness_steps.
-  destruct (m_run m_empty witness_steps) as [m| |] eqn:E; [|vm_compute in E; discriminate|vm_compute in E; discriminate].
-  exists m. vm_compute in E. inversion E; subst m; clear E.
-  exists (mkChange 2 [7] 2 2 [1] []).
-  split; [|split; [reflexivity|]].
-  - cbn. repeat split; vm_compute; intuition discriminate.
-  - vm_compute. split; [tauto|]. split; [intuition discriminate|]. split; [tauto|intuition discriminate].
-Qed.
 
 (* ================================================================== *)
-(* what the covering test of isolate_actor guarantees, and what it does not *)
+(* the actor chain is an invariant                                     *)
 
 (* [seq_index] positions are seq - 1 (asserted by ChangeGraph::add_changes) *)
 Definition SeqIdx (appl : list change) (a : actor) : Prop :=
   forall i c, nth_error (actor_changes appl a) i = Some c -> ch_seq c = N.of_nat i + 1.
 
-(* a later change of the actor reaches a higher op counter: true when none of them is empty *)
-Definition StrictOps (appl : list change) (a : actor) : Prop :=
-  forall c1 c2, In c1 appl -> In c2 appl -> ch_actor c1 = a -> ch_actor c2 = a ->
-    ch_seq c1 < ch_seq c2 -> max_op c1 < max_op c2.
+Definition AChain (appl : list change) : Prop := (forall a, SeqIdx appl a) /\ ActorChain appl.
+
+(* what one more applied change must satisfy: the next seq of its actor (the code panics
+   otherwise) and, when that actor has a previous change, it descends from it *)
+Definition chain_ok_new (appl : list change) (c : change) : Prop :=
+  ch_seq c = seq_for_actor appl (ch_actor c) + 1 /\
+  forall p, prev_change appl (ch_actor c) = Some p -> Anc (appl ++ [c]) [ch_hash c] p.
 
 Lemma actor_changes_in appl a c : In c (actor_changes appl a) <-> In c appl /\ ch_actor c = a.
 Proof. unfold actor_changes. rewrite filter_In, QueueProofs.same_actor_spec. tauto. Qed.
 
-(* Under these two conditions the actor an isolated transaction writes as has its previous
-   change among the ancestors of the isolation heads: the new change continues the actor's chain *)
-Theorem isolated_prev_is_ancestor appl heads a hs m p :
-  commit_meta appl heads a (Some hs) = Ok m ->
-  SeqIdx appl (cm_actor m) -> StrictOps appl (cm_actor m) ->
-  prev_change appl (cm_actor m) = Some p -> 1 <= max_op p ->
-  In p (ancestors appl hs).
+Lemma actor_changes_snoc appl c a :
+  actor_changes (appl ++ [c]) a = actor_changes appl a ++ (if same_actor (ch_actor c) a then [c] else []).
+Proof. unfold actor_changes. rewrite filter_app. cbn [filter]. destruct (same_actor (ch_actor c) a); reflexivity. Qed.
+
+Lemma seq_for_actor_len appl a : seq_for_actor appl a = N.of_nat (length (actor_changes appl a)).
+Proof. reflexivity. Qed.
+
+Lemma SeqIdx_le appl a x : SeqIdx appl a -> In x appl -> ch_actor x = a ->
+  1 <= ch_seq x <= seq_for_actor appl a.
 Proof.
-  intros H Hsi Hso Hp Hmo.
-  destruct (commit_deps_isolated _ _ _ _ _ H) as [_ [_ [j [_ [Hc _]]]]].
-  set (ai := cm_actor m) in *. unfold prev_change in Hp.
-  unfold max_op_for_actor in Hc. rewrite Hp in Hc. destruct Hc as [Hc|Hc]; [lia|].
-  unfold clock_at_get in Hc.
-  destruct (seq_clock_at appl hs ai =? 0) eqn:E0; [lia|]. apply N.eqb_neq in E0.
-  destruct (nth_error (actor_changes appl ai) (N.to_nat (seq_clock_at appl hs ai - 1))) as [c'|] eqn:En; [|lia].
-  pose proof (Hsi _ _ En) as Hs'.
-  (* the ancestor that carries the clock's seq is that change *)
-  unfold seq_clock_at in *. fold (sfold ai (ancestors appl hs) 0) in *.
-  destruct (sfold_witness ai (ancestors appl hs) 0) as [Ew|[c'' [Hc'' [Ha'' Hs'']]]]; [congruence|].
-  assert (Hin'' : In c'' (actor_changes appl ai)).
-  { apply actor_changes_in. split; [eapply ancestors_incl; exact Hc''|exact Ha'']. }
-  destruct (In_nth_error _ _ Hin'') as [k Hk]. pose proof (Hsi _ _ Hk) as Hsk.
-  assert (k = N.to_nat (sfold ai (ancestors appl hs) 0 - 1)) by lia. subst k.
-  rewrite En in Hk. inversion Hk; subst c''. clear Hk Hsk.
-  (* p is the last one *)
-  pose proof (nth_error_last (actor_changes appl ai)) as Hl. rewrite Hp in Hl.
-  pose proof (Hsi _ _ Hl) as Hsp.
-  assert (Hlen : (N.to_nat (sfold ai (ancestors appl hs) 0 - 1) < length (actor_changes appl ai))%nat)
-    by (apply nth_error_Some; congruence).
-  destruct (Nat.eq_dec (N.to_nat (sfold ai (ancestors appl hs) 0 - 1)) (length (actor_changes appl ai) - 1)) as [Ee|Ene].
-  - rewrite Ee in En. rewrite En in Hl. inversion Hl; subst. exact Hc''.
-  - exfalso. assert (Hlt : ch_seq c' < ch_seq p) by lia.
-    apply last_opt_in in Hp. apply actor_changes_in in Hp. apply actor_changes_in in Hin''.
-    pose proof (Hso c' p (proj1 Hin'') (proj1 Hp) (proj2 Hin'') (proj2 Hp) Hlt). lia.
+  intros Hs Hx Ha. assert (Hin : In x (actor_changes appl a)) by (apply actor_changes_in; auto).
+  destruct (In_nth_error _ _ Hin) as [k Hk]. pose proof (Hs _ _ Hk) as E.
+  assert ((k < length (actor_changes appl a))%nat) by (apply nth_error_Some; congruence).
+  rewrite seq_for_actor_len. lia.
 Qed.
 
-(* ... and without the second condition it fails in a reachable state: after a change and an
-   EMPTY change of one actor, a transaction isolated at the first change is written by the same
-   actor with seq 3 and does not descend from the seq-2 change: the actor's changes no longer
-   form a chain *)
-Theorem isolated_commit_breaks_chain :
-  exists steps m, run_fresh m_empty steps /\ m_run m_empty steps = Ok m /\ ~ ActorChain (applied (m_doc m)).
+(* the change of an actor whose seq is the number of that actor's changes is its last one *)
+Lemma SeqIdx_last appl a x p : SeqIdx appl a -> In x appl -> ch_actor x = a ->
+  ch_seq x = seq_for_actor appl a -> prev_change appl a = Some p -> x = p.
 Proof.
-  exists witness_steps.
-  destruct (m_run m_empty witness_steps) as [m| |] eqn:E; [|vm_compute in E; discriminate|vm_compute in E; discriminate].
-  exists m. split; [cbn; repeat split; vm_compute; intuition discriminate|]. split; [reflexivity|].
-  pose proof (MInv_run witness_steps m_empty m MInv_empty) as Hi.
-  assert (Hb : Built (applied (m_doc m))).
-  { apply Hi; [cbn; repeat split; vm_compute; intuition discriminate|exact E]. }
-  vm_compute in E. inversion E; subst m; clear E Hi. cbn [m_doc applied] in *.
-  intros [_ [_ Hch]].
-  specialize (Hch (mkChange 2 [7] 2 2 [1] []) (mkChange 3 [7] 3 2 [1] [dummy_op])).
-  assert (Ha : Anc [mkChange 1 [7] 1 1 [] [dummy_op]; mkChange 2 [7] 2 2 [1] []; mkChange 3 [7] 3 2 [1] [dummy_op]]
-                   [3] (mkChange 2 [7] 2 2 [1] [])).
-  { apply Hch; [right; left; reflexivity|right; right; left; reflexivity|reflexivity|reflexivity]. }
-  apply (Built_anc_iff _ _ _ Hb) in Ha. vm_compute in Ha. intuition discriminate.
+  intros Hs Hx Ha Hq Hp. assert (Hin : In x (actor_changes appl a)) by (apply actor_changes_in; auto).
+  destruct (In_nth_error _ _ Hin) as [k Hk]. pose proof (Hs _ _ Hk) as E.
+  unfold prev_change in Hp. rewrite <- nth_error_last in Hp. rewrite seq_for_actor_len in Hq.
+  assert (k = (length (actor_changes appl a) - 1)%nat) by lia. subst k. congruence.
+Qed.
+
+Lemma SeqIdx_prev_seq appl a p : SeqIdx appl a -> prev_change appl a = Some p ->
+  ch_seq p = seq_for_actor appl a /\ In p appl /\ ch_actor p = a.
+Proof.
+  intros Hs Hp. unfold prev_change in Hp. pose proof (last_opt_in _ _ Hp) as Hin.
+  apply actor_changes_in in Hin. rewrite <- nth_error_last in Hp. pose proof (Hs _ _ Hp) as E.
+  assert ((length (actor_changes appl a) - 1 < length (actor_changes appl a))%nat) by (apply nth_error_Some; congruence).
+  rewrite seq_for_actor_len. split; [lia|exact Hin].
+Qed.
+
+Lemma AChain_nil : AChain [].
+Proof.
+  split; [intros a i c H; destruct i; discriminate|].
+  split; [intros c c' []|]. split; [intros c []|intros c1 c2 []].
+Qed.
+
+Lemma AChain_snoc appl c : Built (appl ++ [c]) -> AChain appl -> chain_ok_new appl c -> AChain (appl ++ [c]).
+Proof.
+  intros Hb [Hsi [Hu [H1 Hch]]] [Hseq Hprev].
+  assert (Hsi' : forall a, SeqIdx (appl ++ [c]) a).
+  { intros a i x Hx. rewrite actor_changes_snoc in Hx.
+    destruct (Nat.lt_ge_cases i (length (actor_changes appl a))) as [Hlt|Hge].
+    - rewrite nth_error_app1 in Hx by exact Hlt. exact (Hsi a i x Hx).
+    - rewrite nth_error_app2 in Hx by exact Hge.
+      destruct (same_actor (ch_actor c) a) eqn:Ea; [|destruct (i - _)%nat; discriminate].
+      apply QueueProofs.same_actor_spec in Ea. subst a.
+      destruct (i - length (actor_changes appl (ch_actor c)))%nat as [|k] eqn:Ek; [|destruct k; discriminate].
+      cbn in Hx. inversion Hx; subst x. rewrite Hseq, seq_for_actor_len. lia. }
+  assert (Hnew : forall x, In x appl -> ch_actor x = ch_actor c -> ch_seq x < ch_seq c).
+  { intros x Hx Ha. pose proof (SeqIdx_le appl (ch_actor c) x (Hsi _) Hx Ha). lia. }
+  split; [exact Hsi'|]. split; [|split].
+  - intros x y Hx Hy Ha Hs. apply in_app_or in Hx. apply in_app_or in Hy.
+    destruct Hx as [Hx|[<-|[]]]; destruct Hy as [Hy|[<-|[]]].
+    + exact (Hu x y Hx Hy Ha Hs).
+    + pose proof (Hnew x Hx Ha). lia.
+    + pose proof (Hnew y Hy (eq_sym Ha)). lia.
+    + reflexivity.
+  - intros x Hx. apply in_app_or in Hx. destruct Hx as [Hx|[<-|[]]]; [exact (H1 x Hx)|lia].
+  - intros c1 c2 Hc1 Hc2 Ha Hs. apply in_app_or in Hc1. apply in_app_or in Hc2.
+    destruct Hc2 as [Hc2|[<-|[]]].
+    + destruct Hc1 as [Hc1|[<-|[]]].
+      * apply Anc_mono. exact (Hch c1 c2 Hc1 Hc2 Ha Hs).
+      * pose proof (Hnew c2 Hc2 (eq_sym Ha)). lia.
+    + destruct Hc1 as [Hc1|[<-|[]]]; [|lia].
+      destruct (prev_change appl (ch_actor c)) as [p|] eqn:Hp.
+      * destruct (SeqIdx_prev_seq appl (ch_actor c) p (Hsi _) Hp) as [Hps [Hpin Hpa]].
+        pose proof (SeqIdx_le appl (ch_actor c) c1 (Hsi _) Hc1 Ha) as Hle.
+        destruct (N.eq_dec (ch_seq c1) (seq_for_actor appl (ch_actor c))) as [Heq|Hne].
+        -- assert (c1 = p) as -> by (eapply SeqIdx_last; eauto). apply Hprev. reflexivity.
+        -- eapply Anc_trans; [exact Hb|apply Hprev; reflexivity|]. apply Anc_mono.
+           apply Hch; [exact Hc1|exact Hpin|congruence|lia].
+      * exfalso. unfold prev_change in Hp. apply last_opt_none in Hp.
+        assert (Hin : In c1 (actor_changes appl (ch_actor c))) by (apply actor_changes_in; auto).
+        rewrite Hp in Hin. destruct Hin.
+Qed.
+
+Lemma AChain_app : forall r a, Built (a ++ r) -> AChain a ->
+  (forall pre c post, r = pre ++ c :: post -> chain_ok_new (a ++ pre) c) -> AChain (a ++ r).
+Proof.
+  induction r as [|x t IH] using rev_ind; intros a Hb Ha Hok; [rewrite app_nil_r; exact Ha|].
+  rewrite app_assoc in Hb |- *. apply AChain_snoc; [exact Hb| |].
+  - apply IH; [apply Built_snoc_inv in Hb; exact (proj1 Hb)|exact Ha|].
+    intros pre c post E. apply (Hok pre c (post ++ [x])). rewrite E, <- app_assoc. reflexivity.
+  - apply (Hok t x []). reflexivity.
+Qed.
+
+(* an ancestor of the isolation heads is an ancestor of the change made on them *)
+Lemma Anc_through_new appl c hs p : In (ch_hash c) [ch_hash c] ->
+  (forall h, In h hs -> In h (hashes appl) -> In h (ch_deps c)) ->
+  Anc appl hs p -> Anc (appl ++ [c]) [ch_hash c] p.
+Proof.
+  intros _ Hd H. induction H as [x Hx Hh|x y Hx HA IH Hdep].
+  - eapply Anc_dep; [apply in_or_app; left; exact Hx| |].
+    + apply Anc_head; [apply in_or_app; right; left; reflexivity|left; reflexivity].
+    + apply Hd; [exact Hh|apply in_hashes; exists x; auto].
+  - eapply Anc_dep; [apply in_or_app; left; exact Hx|exact IH|exact Hdep].
+Qed.
+
+(* the previous change of the actor an isolated transaction writes as is ALWAYS an ancestor of
+   the isolation heads *)
+Theorem isolated_prev_is_ancestor appl heads a hs m p :
+  commit_meta appl heads a (Some hs) = Ok m ->
+  SeqIdx appl (cm_actor m) -> prev_change appl (cm_actor m) = Some p ->
+  In p (ancestors appl hs).
+Proof.
+  intros H Hsi Hp.
+  destruct (commit_deps_isolated _ _ _ _ _ H) as [_ [_ [j [_ [Hc _]]]]].
+  set (ai := cm_actor m) in *.
+  destruct (SeqIdx_prev_seq appl ai p Hsi Hp) as [Hps [Hpin Hpa]].
+  pose proof (SeqIdx_le appl ai p Hsi Hpin Hpa) as Hle.
+  destruct Hc as [Hc|Hc]; [lia|].
+  unfold seq_clock_at in Hc. fold (sfold ai (ancestors appl hs) 0) in Hc.
+  destruct (sfold_witness ai (ancestors appl hs) 0) as [Ew|[x [Hx [Hxa Hxs]]]]; [lia|].
+  assert (x = p) as <-; [|exact Hx].
+  eapply SeqIdx_last; [exact Hsi|eapply ancestors_incl; exact Hx|exact Hxa|congruence|exact Hp].
+Qed.
+
+(* every created change continues its actor's chain *)
+Lemma commit_chain_ok appl a iso m h ops :
+  Built appl -> (forall a, SeqIdx appl a) ->
+  commit_meta appl (heads_of appl) a iso = Ok m ->
+  chain_ok_new appl (mkChange h (cm_actor m) (cm_seq m) (cm_start m) (cm_deps m) ops).
+Proof.
+  intros Hb Hsi H. split; cbn [ch_seq ch_actor ch_hash]; [exact (commit_seq_next _ _ _ _ _ H)|].
+  intros p Hp. set (c := mkChange h (cm_actor m) (cm_seq m) (cm_start m) (cm_deps m) ops).
+  destruct (SeqIdx_prev_seq appl (cm_actor m) p (Hsi _) Hp) as [_ [Hpin _]].
+  destruct iso as [hs|].
+  - pose proof (isolated_prev_is_ancestor _ _ _ _ _ _ H (Hsi _) Hp) as Ha.
+    apply (Built_anc_iff appl hs p Hb) in Ha.
+    apply (Anc_through_new appl c hs p); [left; reflexivity| |exact Ha].
+    intros x Hx Hx2. cbn [c ch_deps]. rewrite (proj1 (commit_deps_isolated _ _ _ _ _ H)).
+    apply in_sortN_filter. auto.
+  - destruct (commit_deps_nonisolated _ _ _ _ H) as [Ea [_ [_ Hd]]].
+    { intros x Hx. apply heads_of_in_hashes. exact Hx. }
+    eapply Anc_dep; [apply in_or_app; left; exact Hpin| |].
+    + apply Anc_head; [apply in_or_app; right; left; reflexivity|left; reflexivity].
+    + cbn [c ch_deps]. apply Hd. right. exists p. rewrite <- Ea. auto.
+Qed.
+
+(* delivered changes must continue their actor's chain: the first half is what the code
+   asserts (change_graph.rs, add_changes), the second is true of every change a library
+   document creates ([commit_chain_ok]); a hand-built history can violate it *)
+Definition step_chain_ok (m : mdoc) (s : mstep) : Prop :=
+  match s with
+  | SCommit _ => True
+  | SReceive cs => forall pre c post,
+      applied (m_doc (m_receive m cs)) = applied (m_doc m) ++ pre ++ c :: post ->
+      chain_ok_new (applied (m_doc m) ++ pre) c
+  end.
+
+Fixpoint run_chain_ok (m : mdoc) (steps : list mstep) : Prop :=
+  match steps with
+  | [] => True
+  | s :: t => step_chain_ok m s /\ match m_step m s with Ok m' => run_chain_ok m' t | _ => True end
+  end.
+
+Lemma m_receive_extends m cs : MInv m -> exists r, applied (m_doc (m_receive m cs)) = applied (m_doc m) ++ r.
+Proof.
+  intros [Hb [Hn _]]. unfold m_receive. destruct (receive (m_doc m) cs) as [d'| |] eqn:E; cbn [m_doc].
+  - destruct (receive_Built _ _ _ E Hb Hn) as [_ [_ Hr]]. exact Hr.
+  - exists []. rewrite receive_err_state_applied, app_nil_r. reflexivity.
+  - exists []. rewrite receive_err_state_applied, app_nil_r. reflexivity.
+Qed.
+
+Lemma AChain_step m s m' : MInv m -> step_fresh m s -> step_chain_ok m s -> AChain (applied (m_doc m)) ->
+  m_step m s = Ok m' -> AChain (applied (m_doc m')).
+Proof.
+  intros Hi Hf Hok Ha H. pose proof (MInv_step _ _ _ Hi Hf H) as Hi'. destruct s as [cs|r]; cbn [m_step] in H.
+  - inversion H; subst m'. destruct (m_receive_extends m cs Hi) as [rr Hr]. rewrite Hr.
+    apply AChain_app; [rewrite <- Hr; exact (proj1 Hi')|exact Ha|].
+    intros pre c post E. apply (Hok pre c post). rewrite Hr, E. reflexivity.
+  - destruct (m_commit m r) as [[m2 oc]| |] eqn:E; cbn [bind] in H; try discriminate. inversion H; subst m2.
+    unfold m_commit in E.
+    destruct (commit_meta _ _ _ _) as [meta| |] eqn:Em; cbn [bind] in E; try discriminate.
+    rewrite (MInv_heads m Hi) in Em.
+    assert (Hnew : AChain (applied (m_doc m) ++
+              [mkChange (cr_hash r) (cm_actor meta) (cm_seq meta) (cm_start meta) (cm_deps meta) (cr_ops r)]) ->
+            AChain (applied (m_doc m'))).
+    { destruct (cr_ops r) as [|o ops]; [destruct (cr_force r)|]; inversion E; subst; cbn [m_doc applied]; auto. }
+    destruct (cr_ops r) as [|o ops] eqn:Eo; [destruct (cr_force r) eqn:Ef|].
+    + apply Hnew. apply AChain_snoc; [|exact Ha|eapply commit_chain_ok; [exact (proj1 Hi)|exact (proj1 Ha)|exact Em]].
+      inversion E; subst. exact (proj1 Hi').
+    + inversion E; subst. cbn [m_doc applied]. exact Ha.
+    + apply Hnew. apply AChain_snoc; [|exact Ha|eapply commit_chain_ok; [exact (proj1 Hi)|exact (proj1 Ha)|exact Em]].
+      inversion E; subst. exact (proj1 Hi').
+Qed.
+
+(* each actor's applied changes form a chain in every state reached from the empty document by
+   local commits (plain, empty, isolated) and deliveries of changes that continue their chain *)
+Theorem chain_invariant : forall steps m m',
+  MInv m -> AChain (applied (m_doc m)) -> run_fresh m steps -> run_chain_ok m steps ->
+  m_run m steps = Ok m' -> AChain (applied (m_doc m')).
+Proof.
+  induction steps as [|s t IH]; intros m m' Hi Ha Hf Hok H; cbn [m_run] in H.
+  - inversion H; subst. exact Ha.
+  - cbn [run_fresh] in Hf. cbn [run_chain_ok] in Hok. destruct Hf as [Hf1 Hf2]. destruct Hok as [Hk1 Hk2].
+    destruct (m_step m s) as [m2| |] eqn:E; cbn [bind] in H; try discriminate.
+    eapply IH; [eapply MInv_step; eassumption|eapply AChain_step; eassumption|exact Hf2|exact Hk2|exact H].
+Qed.
+
+(* hence the sequence-clock computation of get_changes is the specification in every such state *)
+Theorem get_changes_impl_reachable : forall steps m have,
+  run_fresh m_empty steps -> run_chain_ok m_empty steps -> m_run m_empty steps = Ok m ->
+  get_changes_impl (applied (m_doc m)) have = get_changes (applied (m_doc m)) have.
+Proof.
+  intros steps m have Hf Hok H. apply get_changes_impl_eq_spec.
+  - exact (proj1 (MInv_run steps m_empty m MInv_empty Hf H)).
+  - exact (proj2 (chain_invariant steps m_empty m MInv_empty AChain_nil Hf Hok H)).
 Qed.
